@@ -1,6 +1,7 @@
 (* C09 - Finite stimuli honour their duration contract and envelope shape.
    Property theorems only; every proof is `exact <lemma of Stim/Proofs*.v>`. *)
-From PV Require Import Stim.Model Stim.Spec Stim.Proofs Stim.ProofsC09.
+From PV Require Import Stim.Model Stim.Spec Stim.Proofs Stim.ProofsC09 Stim.Cos2R.
+From Coq Require Import Reals.
 
 (* the sample count reported is start + duration (array length for fixed / repeated waveforms) *)
 Theorem C09_totals : forall g,
@@ -52,6 +53,11 @@ Theorem C09_rise_rejected : forall nid elb dur rise o n g s, dur < 2 * rise ->
   (forall R i, s = SNode o i -> gnext R (GEnv nid elb dur rise g) s n = None).
 Proof. exact rise_rejected. Qed.
 Print Assumptions C09_rise_rejected.
+
+(* the cosine-squared window stays within [0, 1] (over the reals; the scipy windows are checked numerically) *)
+Theorem C09_cos2_unit_interval : forall m j : R, (0 <= cos2ramp_R m j <= 1)%R.
+Proof. exact cos2ramp_unit_interval. Qed.
+Print Assumptions C09_cos2_unit_interval.
 
 Example C09_ex : wf (GRepeat 3 1 12 2 (GEnv 2 0 8 2 (GCar 1))) = true /\
   finite_total (GRepeat 3 1 12 2 (GEnv 2 0 8 2 (GCar 1))) = Some 48.
